@@ -1,7 +1,9 @@
 ------------------------------ MODULE Emit_C16 ------------------------------
 (* C16 obligations: every cell of the documented configuration lattice with the outcome the specification intends. *)
 EXTENDS Lattice, Json, IOUtils, SequencesExt
-CONSTANTS PROCS, PROJS, KINDS, FLAVS, SCHEMES, ORDERS, TMCS, XCS, QCS, PARTS
+CONSTANTS PROCS, PROJS, KINDS, FLAVS, SCHEMES, ORDERS, TMCS, XCS, QCS, PARTS,
+          SVS      \* which scale variations the card asks for: "both" | "ren" | "fact" | "none" - documented switches, the outcome
+                   \* of a cell does not depend on them
 Pt(p, j, k, fl, s, o, pa) ==
   [proc |-> p, proj |-> ProjOf(j), kind |-> k, flav |-> fl, fns |-> SchemeOf(s).fns, nfff |-> SchemeOf(s).nfff,
    nfzm |-> SchemeOf(s).nfzm, parts |-> pa, pto |-> OrderOf(o)[1], ptoEvol |-> OrderOf(o)[2], target |-> <<One, One>>,
@@ -13,10 +15,10 @@ Predict(pt, k, tmc, xc, qc) ==
   ELSE IF IsXS(k) THEN OutcomeXS(CellOfPt(SetPt(pt, "kind", "F2")), k, tmc)
   ELSE OutcomeTMC(CellOfPt(pt), tmc)
 Obls ==
-  {[pt |-> Pt(p, j, IF IsXS(k) THEN "F2" ELSE k, fl, s, o, pa), name |-> k, tmc |-> t, xc |-> xc, qc |-> qc,
+  {[pt |-> Pt(p, j, IF IsXS(k) THEN "F2" ELSE k, fl, s, o, pa), name |-> k, tmc |-> t, xc |-> xc, qc |-> qc, sv |-> sv,
     predicted |-> Predict(Pt(p, j, IF IsXS(k) THEN "F2" ELSE k, fl, s, o, pa), k, t, xc, qc)] :
      p \in PROCS, j \in PROJS, k \in KINDS, fl \in FLAVS, s \in SCHEMES, o \in ORDERS, pa \in PARTS, t \in TMCS,
-     xc \in XCS, qc \in QCS}
+     xc \in XCS, qc \in QCS, sv \in SVS}
 WellFormed(o) == o.pt.parts # "full" => o.pt.fns \in {"FONLL-FFNS", "FONLL-FFN0"}
 ASSUME ndJsonSerialize(IOEnv.OUT, SetToSeq({o \in Obls : WellFormed(o)}))
 =============================================================================
